@@ -230,6 +230,12 @@ pub fn block(name: &str, c: &AlphaCtx, out: &mut Vec<Op>) {
             out.push(Op::k(OpK::Clear));
             out.push(Op::k(OpK::IterMutWrite));
         }
+        // a source whose size_hint claims an exact length that is too small (0 / 1 / 3 for 12 items)
+        "hintlie" => {
+            for h in 4..7 {
+                out.push(Op::arg(OpK::ExtendHint, h));
+            }
+        }
         "fill" => out.push(Op::k(OpK::FillToCap)),
         // one bulk call that adds thousands of keys (pre-allocation caps, budgets derived from size hints)
         "bulkbig" => {
@@ -321,6 +327,13 @@ pub fn block(name: &str, c: &AlphaCtx, out: &mut Vec<Op>) {
                 }
             }
         }
+        // try_reserve while allocations larger than the current table fail
+        "mempress" => {
+            let free = (c.cap - c.len) as u64;
+            for n in [0u64, 1, free, free + 1, free + 2, c.len as u64, c.cap as u64] {
+                out.push(Op::arg(OpK::TryReserve, n | 1 << 60));
+            }
+        }
         // three bulk removals that leave tombstones behind (even keys / old-table elements / main-table elements kept)
         "rt3" => {
             for code in [4u64, 2, 3] {
@@ -397,7 +410,7 @@ pub fn block(name: &str, c: &AlphaCtx, out: &mut Vec<Op>) {
                 out.push(Op::arg(OpK::ShrinkTo, (i64::MAX as u64) - j));
                 out.push(Op::arg(OpK::ShrinkTo, (i64::MAX as u64) + 1 + j));
             }
-            for h in 0..4 {
+            for h in 0..7 {
                 out.push(Op::arg(OpK::ExtendHint, h));
             }
             // requests the allocator itself refuses (Err(AllocError)): far beyond RAM, below the layout limit
